@@ -42,6 +42,10 @@ func (p Params) Validate() error {
 		return fmt.Errorf("fee must be positive and less than 1: %s", p.Fee.String())
 	}
 
+	if err := p.PoolCreationFee.Validate(); err != nil {
+		return fmt.Errorf("invalid poolCreationFee: %w", err)
+	}
+
 	if !p.PoolCreationFee.IsPositive() {
 		return fmt.Errorf("poolCreationFee must be positive: %s", p.PoolCreationFee.String())
 	}
@@ -73,6 +77,10 @@ func validatePoolCreationFee(i interface{}) error {
 	v, ok := i.(sdk.Coin)
 	if !ok {
 		return fmt.Errorf("invalid parameter type: %T", i)
+	}
+
+	if err := v.Validate(); err != nil {
+		return fmt.Errorf("invalid poolCreationFee: %w", err)
 	}
 
 	if !v.IsPositive() {
